@@ -336,6 +336,45 @@ type runner struct {
 	r        *hk.Run
 	knownCap int
 	seenU    map[string]bool
+	wins     []window
+}
+
+// window: a caller-owned array parts of which were handed to the library as address / mask / MAC fields
+type window struct{ live, copy []byte }
+
+// win returns n octets the way a caller holding a captured packet header has them: a sub-slice of a larger
+// array whose other octets are live data (spare capacity behind the slice), sometimes the octets right
+// behind the previous window (local and remote address of one header).  Half of the time: exact capacity.
+func (x *runner) win(n int) []byte {
+	g := x.r.Rng
+	if g.Intn(2) == 0 {
+		return g.Bytes(n)
+	}
+	if len(x.wins) > 0 && g.Intn(3) == 0 {
+		w := x.wins[len(x.wins)-1]
+		if off := len(w.live) - 8; off >= 0 && n <= 8 && g.Intn(2) == 0 {
+			return w.live[off : off+n]
+		}
+	}
+	arr := g.Bytes(n + 8)
+	x.wins = append(x.wins, window{arr, append([]byte(nil), arr...)})
+	if len(x.wins) > 64 {
+		x.wins = x.wins[1:]
+	}
+	return arr[:n]
+}
+
+// winsIntact: serialising reads its value; the caller's arrays are what they were
+func (x *runner) winsIntact(site, term string) {
+	kept := x.wins[:0]
+	for _, w := range x.wins {
+		if string(w.live) != string(w.copy) {
+			x.fail(site, "caller-bytes-overwritten", term, fmt.Sprintf("an array the value's address / mask / MAC fields are sub-slices of read %x before and reads %x after", w.copy, w.live))
+			continue
+		}
+		kept = append(kept, w)
+	}
+	x.wins = kept
 }
 
 func (x *runner) fail(site, class string, input interface{}, detail string) {
@@ -440,6 +479,7 @@ func (x *runner) rulesM(stream string, q nasType.QoSRules) []byte {
 	var err error
 	panicked, pv := hk.Catch(func() { out, err = q.MarshalBinary() })
 	x.r.Retain("nasType.QoSRules.MarshalBinary", term, out)
+	x.winsIntact("nasType.QoSRules.MarshalBinary", term)
 	id := x.r.NextID()
 	x.r.AddCase(fmt.Sprintf("CRulesM %d %s %s", id, term, obsStr(panicked, false, err, hk.CoqBytes(out))), "QoSRules.MarshalBinary "+term)
 	wf := wfRules(q)
@@ -638,9 +678,9 @@ func (x *runner) randComp(wf bool) nasType.PacketFilterComponent {
 	case 0:
 		return &nasType.PacketFilterMatchAll{}
 	case 1:
-		return &nasType.PacketFilterIPv4RemoteAddress{Address: net.IP(g.Bytes(4)), Mask: net.IPMask(g.Bytes(4))}
+		return &nasType.PacketFilterIPv4RemoteAddress{Address: net.IP(x.win(4)), Mask: net.IPMask(x.win(4))}
 	case 2:
-		return &nasType.PacketFilterIPv4LocalAddress{Address: net.IP(g.Bytes(4)), Mask: net.CIDRMask(g.Intn(33), 32)}
+		return &nasType.PacketFilterIPv4LocalAddress{Address: net.IP(x.win(4)), Mask: net.CIDRMask(g.Intn(33), 32)}
 	case 3:
 		return &nasType.PacketFilterProtocolIdentifier{Value: u8()}
 	case 4:
@@ -658,9 +698,9 @@ func (x *runner) randComp(wf bool) nasType.PacketFilterComponent {
 	case 10:
 		return &nasType.PacketFilterFlowLabel{Label: uint32(g.Next()) & 0xfffff}
 	case 11:
-		return &nasType.PacketFilterDestinationMACAddress{MAC: net.HardwareAddr(g.Bytes(6))}
+		return &nasType.PacketFilterDestinationMACAddress{MAC: net.HardwareAddr(x.win(6))}
 	case 12:
-		return &nasType.PacketFilterSourceMACAddress{MAC: net.HardwareAddr(g.Bytes(6))}
+		return &nasType.PacketFilterSourceMACAddress{MAC: net.HardwareAddr(x.win(6))}
 	case 13:
 		return &nasType.PacketFilterCTagVID{VID: u16()}
 	case 14:
